@@ -8,4 +8,12 @@ CHECKS = {
                 "(from the two call sites); thread interleavings are not modelled (sequential contracts only).",
     },
 }
+CHECKS["C10"] = {
+    "text": "ActionContext.can_trigger is proved equal to (limits, then condition truthiness by the str2bool table) with "
+            "no expression evaluated when the limits fail; process/__exit__ record a fire iff the action ran; "
+            "evaluate_expression is proved to call eval exactly once with the paused frame's globals and locals and "
+            "to return (not raise) any BaseException.",
+    "note": "eval() itself is trusted (runs host code, may raise anything, side-effect free by the property's own "
+            "assumption); str()/lower()/strip() uninterpreted; metric/log expression call sites are covered by C16/C17.",
+}
 NOT_APPLICABLE = {}
